@@ -236,6 +236,10 @@ func implCode(e string) int {
 
 func main() {
 	root := os.Args[1]
+	if len(os.Args) > 2 && os.Args[2] == "--statespace" {
+		fmt.Print("(* GENERATED from the Go sources by the table extractor; do not edit. *)\nRequire Import ZArith List. Import ListNotations. Open Scope Z_scope.\n" + stateSpace(root))
+		return
+	}
 	var sb strings.Builder
 	sb.WriteString("(* GENERATED from the Go sources by the table extractor; do not edit. *)\nRequire Import ZArith List. Import ListNotations. Open Scope Z_scope.\n\n")
 
